@@ -104,6 +104,8 @@ func busyScenarios(tier string) []busy {
 	for _, o := range []string{"setthr", "setthrs", "regnode", "regpipe", "rmpipe-other", "getthr", "reopen"} {
 		out = append(out, busy{Other: o, Bound: b})
 	}
+	// Send#2 is not cancelled at all: it must finish on its own while Send#1 of the same event type is still stuck
+	out = append(out, busy{Other: "none-nocancel", Bound: b + 1})
 	for i := range out {
 		out[i].Name = fmt.Sprintf("busy broker: Send#1 stuck in a blocked node || %s || Send#2 with a canceller", out[i].Other)
 	}
@@ -120,7 +122,11 @@ func busyBody(c busy) func() string {
 				vrt.Fail("fixture: %v", err)
 			}
 		}
-		reg("f", hn.NewNode(log, "f", el.NodeTypeFilter, hn.Block, gate))
+		fnode := hn.NewNode(log, "f", el.NodeTypeFilter, hn.Block, gate)
+		if c.Other == "none-nocancel" {
+			fnode.BlockOnlyPayload, fnode.BlockPayload = true, "one" // only Send#1's event gets stuck
+		}
+		reg("f", fnode)
 		reg("m", hn.NewNode(log, "m", el.NodeTypeFormatter, hn.Pass, gate))
 		reg("s", hn.NewNode(log, "s", el.NodeTypeSink, hn.Drop, gate))
 		if err := b.RegisterPipeline(el.Pipeline{PipelineID: "p1", EventType: "t", NodeIDs: []el.NodeID{"f", "m", "s"}}); err != nil {
@@ -152,7 +158,9 @@ func busyBody(c busy) func() string {
 				b.Reopen(context.Background())
 			}
 		})
-		vrt.GoNamed("canceller2", func() { cancel2() })
+		if c.Other != "none-nocancel" {
+			vrt.GoNamed("canceller2", func() { cancel2() })
+		}
 		_, err := b.Send(ctx2, "t", "two")
 		// Send#2 returned (else the execution deadlocks: the gate opens only now)
 		cancel1()
